@@ -21,4 +21,12 @@ CASES = [
     dict(expect="silent", desc="catch_with_iterable: error presence tested with `is None` first", edits=[dict(file="reactivex/observable/catch.py",
          old="                if last_exception is not None:\n                    observer.on_error(last_exception)\n                else:\n                    observer.on_completed()",
          new="                if last_exception is None:\n                    observer.on_completed()\n                else:\n                    observer.on_error(last_exception)")]),
+    dict(expect="fire", desc="seed C10-r4/2: catch stores the scheduled resubscription in the SerialDisposable that holds the source subscription", names="Q4-continuation-survives", edits=[dict(file="reactivex/observable/catch.py",
+         old="                last_exception = exn\n                cancelable.disposable = _scheduler.schedule(action)", new="                last_exception = exn\n                subscription.disposable = _scheduler.schedule(action)")]),
+    dict(expect="fire", desc="seed C10-r4/3: __iadd__ concatenates in the wrong order", names="Q7-plus-is-concat", edits=[dict(file="reactivex/observable/observable.py",
+         old="        return concat(self, other)\n\n    def __iadd__", new="        return concat(self, other)\n\n    def __iadd__"), dict(file="reactivex/observable/observable.py",
+         old="        from reactivex import concat\n\n        return concat(self, other)\n\n    def __getitem__", new="        from reactivex import concat\n\n        return concat(other, self)\n\n    def __getitem__")]),
+    dict(expect="fire", desc="seed C10-r4/1: concat hands over on the immediate scheduler by default", names="Q6-trampolined-handover", edits=[
+         dict(file="reactivex/observable/concat.py", old="scheduler_ or CurrentThreadScheduler.singleton()", new="scheduler_ or ImmediateScheduler.singleton()"),
+         dict(file="reactivex/observable/concat.py", old="from reactivex.scheduler import CurrentThreadScheduler", new="from reactivex.scheduler import ImmediateScheduler")]),
 ]
